@@ -159,6 +159,24 @@ fn explore(ctx: &Ctx) -> Outcome {
         })
         .reduce(Tally::new, Tally::merge);
     let mut total = total;
+    // call histories: a failing parse (every truncation of the image, which includes
+    // unterminated strings and short tables) followed by a good parse on the same thread
+    {
+        let files = files_of(&[2, 0, 4]);
+        for padded in [true, false] {
+            let l = ArcLayout { padded, tables_first: false, record_order: vec![2, 0, 1], body_order: vec![0, 1, 2], info_before_count: false };
+            let img = ref_pack::build_arc(&files, &l, &ArcTweak::default());
+            for cut in 0..img.bytes.len() {
+                let _ = util::catch(|| arc::from_bytes(&img.bytes[..cut]).map(|m| m.len()).map_err(|e| e.to_string()));
+                total.cases += 1;
+                total.nontrivial += 1;
+                if let Some((sig, summary)) = judge_ok(&files, &l, &mut total) {
+                    total.violate(format!("after-failed-parse:{}", sig), format!("extraction right after parsing the first {} bytes of the same image: {}", cut, summary), json!({"after_cut": cut, "padded": padded}));
+                    break;
+                }
+            }
+        }
+    }
     // scale: many records, large bodies
     for (tag, files) in scale_sets() {
         for padded in [true, false] {
@@ -182,6 +200,15 @@ fn explore(ctx: &Ctx) -> Outcome {
 }
 
 fn replay(_ctx: &Ctx, case: &Value) -> Vec<Violation> {
+    if let Some(cut) = case["after_cut"].as_u64() {
+        let padded = case["padded"].as_bool().unwrap_or(true);
+        let files = files_of(&[2, 0, 4]);
+        let l = ArcLayout { padded, tables_first: false, record_order: vec![2, 0, 1], body_order: vec![0, 1, 2], info_before_count: false };
+        let img = ref_pack::build_arc(&files, &l, &ArcTweak::default());
+        let _ = util::catch(|| arc::from_bytes(&img.bytes[..(cut as usize).min(img.bytes.len())]).map(|m| m.len()).map_err(|e| e.to_string()));
+        let mut t = Tally::new();
+        return judge_ok(&files, &l, &mut t).map(|(sig, summary)| vec![Violation { sig: format!("after-failed-parse:{}", sig), summary, case: case.clone() }]).unwrap_or_default();
+    }
     if let Some(tag) = case["scale"].as_str() {
         let padded = case["padded"].as_bool().unwrap_or(true);
         let mut t = Tally::new();
